@@ -345,7 +345,7 @@ class Contract:
 class Monitor:
     """Representation invariant of a lock-protected class (K2)."""
 
-    def __init__(self, cls, lock, fields, invariant, guarantee=None, props=(), aliases=(), nested=None, on_acquire=None):
+    def __init__(self, cls, lock, fields, invariant, guarantee=None, props=(), aliases=(), nested=None, on_acquire=None, on_release=None):
         self.cls = cls
         self.lock = lock            # field name of the lock ('_lock'); `aliases`: e.g. '_condition'
         self.fields = fields        # guarded field -> type (havocked at acquisition)
@@ -353,6 +353,7 @@ class Monitor:
         self.guarantee = guarantee  # fn(old_view, new_view, ref) -> dict name->Bool (two-state)
         self.props = tuple(props)
         self.aliases = tuple(aliases)
+        self.on_release = on_release  # fn(engine, st, owner, old_state): lemma instances before the invariant is asserted
         self.on_acquire = on_acquire  # fn(engine, st, owner): lemma instances to assume at acquisition
         self.nested = nested or {}   # owned sub-objects guarded by the same lock: field -> {field: type}
 
